@@ -130,10 +130,16 @@ func c18MakeLine(n int) c18Line {
 
 func VerifC18Grammar() {
 	n := vrtParam("LINES", 2)
-	lookA := vrtChoice("lookupA", 3)
+	lookA := vrtChoice("lookupA", 5)
 	lookVal := "L"
-	if lookA == 2 {
+	switch lookA {
+	case 2:
 		lookVal = "" // defined but empty in the lookup: still takes precedence over earlier lines
+	case 3:
+		// a value that would read differently if it were scanned again: it is taken as it is
+		lookVal = "p$$w${B} #c"
+	case 4:
+		lookVal = "\"q\" $B"
 	}
 	lookup := func(k string) (string, bool) {
 		if lookA >= 1 && k == "A" {
